@@ -20,7 +20,7 @@ SPEC = {
                   "prefix, key identifier, base64 key, time) are inputs produced with the same Display impls the code uses; "
                   "that they need no JSON escaping is checked per case by the tie, not proved. Tie: real HTTP dispatcher, data "
                   "sets with all three payload types installed through hooks verif_init_at + mark_update_done (clock override).",
-    "rule": "40 small data-set pairs (all payload types; empty announce / empty withdraw / equal sets; serials at 0, 1, 41, "
+    "rule": "5 delta responses whose announced list ends at byte offsets 63978..64001 (the chunk threshold falls before, inside and after the 22-byte separator between the lists; 53 offsets in the thorough tier); 40 small data-set pairs (all payload types; empty announce / empty withdraw / equal sets; serials at 0, 1, 41, "
             "2^32-2, 2^32-1) and 1 large one in the quick tier (470 route origins: the chunk boundary is crossed; 6 sizes up to 1400 in the thorough tier), each as delta and "
             "as snapshot response; distinct = distinct Coq case term; non-trivial = at least one item listed",
     "assumptions": ["Display output of Asn, Prefix, KeyIdentifier, RouterKeyInfo contains no character that needs JSON escaping "
